@@ -772,6 +772,42 @@ func zzH01_diff_bytesfold() {
 	zzReach("end")
 }
 
+// Known defect (C01.diff.fail_position): a failing slice operation is not reported at the
+// position of the slice expression's '[' (as a failing index operation is) but at the
+// position of whichever operand was compiled last: compile.go expr(*syntax.SliceExpr) calls
+// setPos(e.Lbrack) before compiling the operands, which consume the position, so SLICE is
+// emitted without one and Funcode.Position falls back to the preceding instruction.
+var zzC01SlicePos = zzC01Skel{"x_slicepos", zzNeedNone, `
+x = [1, 2]
+a = 0
+def f():
+    return x[1 : 2 :
+              a]
+r = f()
+`}
+
+// Control: the same failure shape for an index expression, reported at its '['.
+var zzC01IndexPos = zzC01Skel{"x_indexpos", zzNeedNone, `
+x = [1, 2]
+a = 5
+def f():
+    return x[
+              a]
+r = f()
+`}
+
+//verif:unwind 200
+func zzH01_diff_slicepos() {
+	sk := zzC01IndexPos
+	isSlice := zzChoice("slice", 2) == 1
+	if isSlice {
+		sk = zzC01SlicePos
+	}
+	zzObserve("skeleton", sk.name)
+	zzC01DiffK(sk.src, zzC01Options(sk.need, 0), false, isSlice)
+	zzReach("end")
+}
+
 // ---- the harnesses: one per group so that they can be run (and parallelised) separately ----
 
 //verif:unwind 200
